@@ -162,6 +162,10 @@ func init() {
 			// Concrete(s string) string: force a string to a concrete value (forks)
 			return fr.i.conc(a[0])
 		},
+		"SetFS": func(fr *frame, a []value) value {
+			fr.i.px.userdata["fs"] = a[0]
+			return nil
+		},
 		"Fail": func(fr *frame, a []value) value {
 			fr.i.px.curFrame = fr.caller
 			fr.i.px.violation("assert", fr.i.renderStr(a[0]), "", nil)
